@@ -58,7 +58,12 @@ import (
 	"github.com/cloudwego/hertz/pkg/protocol/consts"
 )
 
-const maxContentLengthInStream = 8 * 1024
+const (
+	maxContentLengthInStream = 8 * 1024
+	// maxConsecutiveEmptyReads is the number of (0, nil) results tolerated
+	// from a body stream before giving up with io.ErrNoProgress.
+	maxConsecutiveEmptyReads = 100
+)
 
 var errBrokenChunk = errs.NewPublic("cannot find crlf at the end of chunk").SetMeta("when read body chunk")
 
@@ -112,11 +117,17 @@ func WriteBodyChunked(w network.Writer, r io.Reader) error {
 
 	var err error
 	var n int
+	emptyReads := 0
 	for {
 		n, err = r.Read(buf)
 		if n == 0 {
 			if err == nil {
-				panic("BUG: io.Reader returned 0, nil")
+				// io.Reader allows (0, nil): nothing happened, try again
+				if emptyReads++; emptyReads < maxConsecutiveEmptyReads {
+					continue
+				}
+				err = io.ErrNoProgress
+				break
 			}
 
 			if !errors.Is(err, io.EOF) {
@@ -131,6 +142,7 @@ func WriteBodyChunked(w network.Writer, r io.Reader) error {
 			err = nil
 			break
 		}
+		emptyReads = 0
 		if err = WriteChunk(w, buf[:n], true); err != nil {
 			break
 		}
